@@ -48,7 +48,10 @@ theorem covering_tile (tr tc gr gc : Int) (hr : 1 ≤ tr) (hc : 1 ≤ tc) (h1 : 
 /-! ## Tile counts -/
 
 /-- **`tile_count`** (1): the two ways the code base counts tiles — `int(np.ceil(n / t))` in `tile_pixel_matrix` and
-`(n - 1) // t + 1` in `compute_tile_positions_per_frame` — are the same numbers, `⌈R / tr⌉` and `⌈C / tc⌉`. -/
+`(n - 1) // t + 1` in `compute_tile_positions_per_frame` — are the same numbers, `⌈R / tr⌉` and `⌈C / tc⌉`.
+SIZE ASSUMPTION (DESIGN §4.2): `n / t` is a float64 division in the code and an exact rational one here; the two agree for
+sizes below 2^52 (a non-integral quotient differs from the nearest integer by at least 1/t).  Beyond that they do not:
+`tile_pixel_matrix(2^53 + 1, 1, 2^52, 1)` yields 2 tiles, `compute_tile_positions_per_frame` 3.  DICOM sizes are below 2^32. -/
 theorem tile_counts_agree (R C tr tc : Int) (hr : 1 ≤ tr) (hc : 1 ≤ tc) (hR : 1 ≤ R) (hC : 1 ≤ C) :
     tilesPerAxisCeil R C tr tc = .ok (nTiles R tr, nTiles C tc) ∧ tilesPerAxisFloor tr tc R C = .ok (nTiles C tc, nTiles R tr) ∧
     (nTiles R tr - 1) * tr < R ∧ R ≤ nTiles R tr * tr ∧ (nTiles C tc - 1) * tc < C ∧ C ≤ nTiles C tc * tc := by
@@ -113,7 +116,7 @@ theorem per_frame_data_is_the_grid (channels : List (Option Int)) (planes tr tc 
 index = position in the iteration) is, channel after channel, the grid with frame indices counting up — exactly the
 table the Segmentation constructor writes with explicit positions when nothing is omitted. -/
 theorem tiled_full_table_is_the_grid (chans : List Int) (tr tc R C : Int) (hr : 1 ≤ tr) (hc : 1 ≤ tc) (hR : 1 ≤ R) (hC : 1 ≤ C) :
-    tiledFullLut (chans.map some) tr tc R C = .ok (segRows ((gridPos R C tr tc).map (fun p => (p.2, p.1))) chans 0) :=
+    tiledFullLut (chans.map some) 1 tr tc R C = .ok (segRows ((gridPos R C tr tc).map (fun p => (p.2, p.1))) chans 0) :=
   tiledFullLut_eq chans tr tc R C hr hc hR hC
 
 /-- **`five_descriptions_agree`** (plane positions): `compute_plane_position_tiled_full(row_index, column_index)` for tile
@@ -159,9 +162,11 @@ theorem grid_is_tiled_full (R C tr tc : Int) (hr : 1 ≤ tr) (hc : 1 ≤ tc) :
 
 /-! ## Positions -/
 
-/-- **`position_is_transform_of_offset`**: every tile's reported physical position is the pixel-to-reference transform
-of its reported (1-based) offset taken 0-based — in `compute_tile_positions_per_frame`, hence (above) in
-`iter_tiled_full_frame_data` and `compute_plane_position_tiled_full`. -/
+/-- **`position_is_transform_of_offset`** — for the hand-written `tilePositions` this holds BY CONSTRUCTION of the model
+(the model computes the position from the 0-based index and reports the index + 1, as the code does): the clause is carried for
+`compute_tile_positions_per_frame` / `iter_tiled_full_frame_data` by the textual pin in T7b (transform before `+= 1`, the
+`* [columns, rows]` statement) and the exhaustive correspondence + oracle, not by this theorem.  The statements over
+REGENERATED definitions are `plane_position_agrees` (T7c offsets) and `frame_number_is_row_major` (T7e, T7f). -/
 theorem position_is_transform_of_offset (tr tc R C : Int) (g : Geo) (x : (Int × Int) × (Rat × Rat × Rat))
     (hx : x ∈ tpOf tr tc R C g) : x.2 = pixToRef g (x.1.1 - 1) (x.1.2 - 1) :=
   tilePositions_transform tr tc R C g x hx
@@ -169,11 +174,24 @@ theorem position_is_transform_of_offset (tr tc R C : Int) (g : Geo) (x : (Int ×
 /-! ## The full-tiling test -/
 
 /-- **`tiled_full_predicate_iff`**: the test answers True iff the list of (row position, column position) pairs is the
-row-major grid `gridList nr nc` of *some* number of tile rows and columns (the empty list included) — so every
-permuted, incomplete or repeated list that is not itself such a grid is rejected. -/
+row-major grid `gridList nr nc` of *some* number of tile rows and columns (the empty list included).  Permuted and repeated
+lists are never such a grid; an incomplete list is rejected unless it is itself the complete grid of a smaller matrix (the
+first tile rows of a grid are): see `tiled_full_predicate_for_matrix` for the statement relative to a given matrix. -/
 theorem tiled_full_predicate_iff (ps : List (Int × Int)) (tr tc : Int) (hr : 1 ≤ tr) (hc : 1 ≤ tc) :
     arePlanePositionsTiledFull ps tr tc = .ok true ↔ ∃ nr nc, ps = gridList nr nc tr tc :=
   predicate_iff ps tr tc hr hc
+
+/-- **The test relative to a given matrix.**  The predicate is not told the matrix size: the matrix it tests against is the one
+implied by the largest row / column position in the list (this is also how the Segmentation constructor then sizes the total
+pixel matrix of an object built from such positions).  For a list that contains the last tile of an `R × C` matrix and nothing
+beyond it, True ⇔ the list is the COMPLETE row-major grid of that matrix: every incomplete or permuted list is rejected.  (A
+list that stops before the last tile row, e.g. the first tile row only, is the complete grid of a smaller matrix and is
+accepted — `tiled_full_predicate_iff`.) -/
+theorem tiled_full_predicate_for_matrix (ps : List (Int × Int)) (R C tr tc : Int) (hr : 1 ≤ tr) (hc : 1 ≤ tc) (hR : 1 ≤ R) (hC : 1 ≤ C)
+    (hlast : (1 + tr * (nTiles R tr - 1), 1 + tc * (nTiles C tc - 1)) ∈ ps)
+    (hin : ∀ p ∈ ps, p.1 ≤ 1 + tr * (nTiles R tr - 1) ∧ p.2 ≤ 1 + tc * (nTiles C tc - 1)) :
+    arePlanePositionsTiledFull ps tr tc = .ok true ↔ ps = gridPos R C tr tc :=
+  predicate_for_matrix ps R C tr tc hr hc hR hC hlast hin
 
 /-- it never fails for positive tile sizes … -/
 theorem tiled_full_predicate_total (ps : List (Int × Int)) (tr tc : Int) (hr : 1 ≤ tr) (hc : 1 ≤ tc) :
@@ -192,7 +210,9 @@ theorem tiled_full_predicate_permuted (ps : List (Int × Int)) (R C tr tc : Int)
 /-! ## Cut and paste -/
 
 /-- **`cut_paste_identity`**: cutting a matrix into tiles with `get_tile_array` at the computed offsets and pasting them back
-at those offsets reproduces the matrix; the part of the `⌈R/tr⌉·tr × ⌈C/tc⌉·tc` array outside the matrix is zero. -/
+at those offsets reproduces the matrix; the part of the `⌈R/tr⌉·tr × ⌈C/tc⌉·tc` array outside the matrix is zero.  (Each
+padded tile must have the frame shape `tr × tc` to be pasted — `pasteStep` checks `getTileShape`, so the regenerated pad
+amounts of T6 enter here as well as in `tile_array_spec`.) -/
 theorem cut_paste_identity {α} (z : α) (M : Img α) (R C tr tc : Int) (hr : 1 ≤ tr) (hc : 1 ≤ tc) (hR : 1 ≤ R) (hC : 1 ≤ C) :
     ∃ out, cutPaste z M R C tr tc = .ok (nTiles R tr * tr, nTiles C tc * tc, out) ∧
       ∀ i j, 0 ≤ i → i < nTiles R tr * tr → 0 ≤ j → j < nTiles C tc * tc → out i j = if i < R ∧ j < C then M i j else z :=
